@@ -40,6 +40,9 @@ def main():
         tier = "thorough"
     dirs = [Path(a) for a in args] or sorted(Path("/tmp/mut/out").glob("C*/m*")) + sorted((VERIF / "seeded").glob("*"))
     env = dict(os.environ)
+    # mutated-tree runs must not overwrite the evidence of the unchanged tree
+    env["XV_EVIDENCE_DIR"] = "/tmp/xv_seed_evidence"
+    os.makedirs(env["XV_EVIDENCE_DIR"], exist_ok=True)
     results = []
     for d in dirs:
         patch = d / "patch.diff"
